@@ -23,6 +23,7 @@ struct CbRec
     std::string text;
     std::vector<std::string> result_texts;
     LD rel;          // reference combined relative error after this iteration (NaN / inf possible)
+    T rel_T;         // the same quantity formed in T from the public combination function (for exact-equality targets)
     bool degenerate; // some S_i is zero or not finite: the documented combination is undefined
 };
 
@@ -85,6 +86,10 @@ template <typename Chk> void record(Chk const& c, std::vector<CbRec>& log, bool 
     r.text = o.str();
     for (auto const& res : c.results()) { std::ostringstream q; res.serialize(q); r.result_texts.push_back(q.str()); }
     reference(c.results(), r.rel, r.degenerate);
+    {
+        auto const all = hep::accumulate<hep::weighted_with_variance>(c.results().begin(), c.results().end());
+        r.rel_T = all.error() / std::fabs(all.value());
+    }
     log.push_back(r);
 }
 
@@ -339,12 +344,12 @@ void run_case(Rng& rng, std::uint64_t idx)
     std::size_t n = rng.range(1, 8);
     std::vector<std::size_t> calls;
     for (std::size_t i = 0; i < n; ++i) calls.push_back(rng.range(40, 700));
-    int kind = (idx / 3) % 6;   // 0 user, 1 builtin target 0, 2 builtin positive target, 3 resumed, 4 mpi target 0 / user, 5 mpi positive target
+    int kind = (idx / 3) % 7;   // 0 user, 1 builtin target 0, 2 builtin positive target, 3 resumed, 4 mpi target 0 / user, 5 mpi positive target
     Shared sh;
-    sh.cls = (kind == 2 || kind == 5) ? (rng.below(3) == 0 ? (int)rng.range(1, 5) : 0) : rng.below(6);
+    sh.cls = kind == 6 ? 0 : (kind == 2 || kind == 5) ? (rng.below(3) == 0 ? (int)rng.range(1, 5) : 0) : rng.below(6);
     shared() = &sh;
     static char const* names[] = {"plain", "vegas", "multi_channel"};
-    static char const* kinds[] = {"user-callback", "builtin-target-0", "builtin-positive-target", "resumed", "mpi-target0-or-user", "mpi-positive-target"};
+    static char const* kinds[] = {"user-callback", "builtin-target-0", "builtin-positive-target", "resumed", "mpi-target0-or-user", "mpi-positive-target", "builtin-target-exactly-reached"};
     int mode = rng.below(4);
     std::string file = tmpfile_name(idx);
     J info;
@@ -395,6 +400,25 @@ void run_case(Rng& rng, std::uint64_t idx)
         if (!log.empty() && !log.back().decision && log.size() > 1 && log.size() < n) count("stops_on_a_middle_iteration");
         if (!log.empty() && !log.back().decision && log.size() == 1) count("stops_on_the_first_iteration");
         if (log.size() == n && (log.empty() || log.back().decision)) count("target_never_reached");
+    }
+    else if (kind == 6)
+    {
+        // the target is exactly the relative error the combination has after a chosen iteration: the run must
+        // stop at the first iteration whose relative error (same expression, same type) is not larger
+        std::vector<CbRec> probe;
+        std::string i2; std::size_t b2;
+        run_user(s, calls, "", 0, probe, i2, b2);
+        sh.invocations = 0;
+        std::size_t aim = rng.below(probe.size());
+        T target = probe[aim].rel_T;
+        if (!(target > T()) || !std::isfinite(target)) { shared() = 0; return; }
+        std::size_t expect = n;
+        for (std::size_t k = 0; k < probe.size(); ++k) if (probe[k].rel_T <= target) { expect = k + 1; break; }
+        returned = run_builtin(s, calls, "", mode, file, target, log, initial, before);
+        judge_log(log, calls, before, 0, returned, initial, J(info).f("target", target), "builtin");
+        count("exact_target_runs");
+        if (log.size() != expect)
+            viol(log.size() > expect ? "builtin-continued-although-target-exactly-reached" : "builtin-stopped-before-target-reached:exact", J(info).f("target", target).u("iterations", log.size()).u("expected", expect));
     }
     else if (kind == 3)
     {
@@ -481,6 +505,6 @@ void run_case(Rng& rng, std::uint64_t idx)
 
 } // namespace
 
-std::uint64_t vfh_num_cases(bool thorough) { return thorough ? 18000 : 540; }
+std::uint64_t vfh_num_cases(bool thorough) { return thorough ? 21000 : 630; }
 void vfh_run_case(std::uint64_t idx, Rng& rng) { run_case(rng, idx); }
 void vfh_selftest() {}
